@@ -848,7 +848,7 @@ def main():
               "self-vs-self and get_root_aabb; family empty (no inserted box): %d histories x %s, JIT (guarded, %d rep) + interpreted; "
               "repo %s") % (
         "; + sequences of <=%d calls with sizes {4,8,13,21}%s" % (3 if thorough else 2, "; + all sequences of 4 calls over 19 call kinds (sizes {0,1,3}, insert_aabb with datum)" if thorough else ""),
-        n_hist, stats["scen"], ",".join(FAMILIES), fams_per, "ies" if fams_per > 1 else "y", "" if thorough else " (1 for histories of 3 calls)",
+        n_hist, stats["scen"], ",".join(FAMILIES), fams_per, "ies" if fams_per > 1 else "y", " (2 for the large-batch histories, 1 for histories of 4 calls)" if thorough else " (1 for histories of 3 calls)",
         stats["maxbox"], nq + 3, len(sel), "/".join(EMPTY_VARIANTS), reps, repo_file)
     rule = ("non-trivial = the oracle's answer set is neither empty nor everything (box query: 0 < #overlapping < #inserted; tree query: 0 < #pairs < "
             "#A*#B); distinct by (scenario = history x box family, query bytes)")
